@@ -240,7 +240,7 @@ V_FULL: list[tuple[str, Any]] = [
 ]
 # quick sub-pool: one representative per type and conversion class
 _QUICK = {"nil", "true", "false", "0", "-1", "7", "huge", "giant", "1.5", "inf", "nan", "s_empty", "s_a", "s_a_b", "s_-2",
-          "s_1.5", "s_badb64", "s_pct", "l_123", "l_str", "l_dicts", "d_ab", "range", "missing"}
+          "s_1.5", "s_badb64", "s_pct", "l_empty", "d_empty", "l_123", "l_str", "l_dicts", "d_ab", "range", "missing"}
 V_QUICK: list[tuple[str, Any]] = [(k, v) for k, v in V_FULL if k in _QUICK]
 
 
